@@ -5,7 +5,9 @@ identifier / string pools) and an AST-level shrinker.
 Only the stdlib `ast` and the third-party `regex` module are used here; nothing from paroxython.
 """
 import ast
+import json
 import random
+import threading
 
 import regex
 
@@ -13,6 +15,33 @@ import regex
 # of that regular expression (if the implementation changes its notion of identity, model and
 # implementation disagree and the specification decides).
 REMOVE_CONTEXT = regex.compile(r", ctx=.+?\(\)").sub
+
+
+def batch(drv, reqs):
+    """Pipelined driver calls without the pipe deadlock of a write-all-then-read loop: a thread writes
+    the requests while the caller reads the answers (pipes may be as small as one page here)."""
+    if not reqs:
+        return []
+    data = "".join(json.dumps(r, ensure_ascii=False) + "\n" for r in reqs)
+
+    def writer():
+        drv.p.stdin.write(data)
+        drv.p.stdin.flush()
+
+    t = threading.Thread(target=writer)
+    t.start()
+    out = []
+    for r in reqs:
+        line = drv.p.stdout.readline()
+        if not line:
+            raise RuntimeError("driver died in batch")
+        res = json.loads(line)
+        if isinstance(res, dict) and "error" in res:
+            raise RuntimeError(f"driver error: {res['error']} :: {json.dumps(r)[:300]}")
+        out.append(res)
+    t.join()
+    drv.calls += len(reqs)
+    return out
 
 
 def scalar_kind(v):
